@@ -774,7 +774,7 @@ func writeFieldBodyCount(name string, typ FieldType, w io.Writer, settings Gener
 		writeLineWithTabs(w, "}", depth)
 	} else if typ.Map != nil {
 		writeLineWithTabs(w, "bodyLen += 4", depth, name)
-		useV := typeNeedsElem(typ.Map.Value.Simple, settings)
+		useV := typeNeedsElem(settings.aliased(typ.Map.Value.Simple), settings)
 		useK := typ.Map.Key == typeString
 		if useV && useK {
 			writeLineWithTabs(w, "for %KNAME, %VNAME := range %ASGN {", depth, name)
